@@ -308,6 +308,14 @@ class World:
         self.spec = spec
         return wf.id
 
+    def store_only(self, spec: dict, copies: int = 1) -> None:
+        """Other executions of the same template in the same store (stored, never started): reference ids are unique
+        per execution only.  To be called BEFORE submit() (the oracles map references to the rows inserted last)."""
+        from .specs import build_workflow
+
+        for _ in range(copies):
+            self.store.store(build_workflow(spec))
+
     # ------------------------------------------------------------------ queue
     def _exec_side(self, sql: str, params: tuple = ()) -> Any:
         with self._side_lock:
